@@ -221,7 +221,17 @@ fn gen_syms(rng: &mut Rng, n: usize, tagc: &str) -> Vec<SymSpec> {
     for i in 0..n {
         let defined = rng.chance(3, 4);
         v.push(SymSpec {
-            name: format!("{}{}{}", rng.pick(&WORDS), tagc, i),
+            name: if rng.chance(1, 24) {
+                // longer than any small-buffer threshold (32 / 64 / 256 / 1024)
+                let want = *rng.pick(&[33usize, 65, 130, 257, 1030]);
+                let mut nm = format!("{}{}{}_", rng.pick(&WORDS), tagc, i);
+                while nm.len() < want {
+                    nm.push((b'a' + (nm.len() % 26) as u8) as char);
+                }
+                nm
+            } else {
+                format!("{}{}{}", rng.pick(&WORDS), tagc, i)
+            },
             defined,
             info: ((rng.below(3) as u8) << 4) | (rng.below(5) as u8),
             other: rng.below(4) as u8,
@@ -579,7 +589,15 @@ impl GenParams {
                 *rng.pick(&[60usize, 64, 70, 100, 128, 130, 200, 256, 260, 300])
             },
             big: if small {
-                0
+                // C17 / C18 images are small so that enumeration stays cheap, but a few carry
+                // one range above the plausible chunk sizes (64 KiB, 128 KiB, 1 MiB)
+                if rng.chance(1, 40) {
+                    *rng.pick(&[5_000usize, 66_000, 70_000, 132_000, 1_100_000])
+                } else {
+                    0
+                }
+            } else if rng.chance(1, 300) {
+                *rng.pick(&[132_000usize, 1_100_000])
             } else if thorough && rng.chance(1, 16) {
                 rng.urange(4096, 70_000)
             } else if rng.chance(1, 48) {
@@ -855,7 +873,14 @@ pub fn build(rng: &mut Rng, p: &GenParams) -> Vec<u8> {
         let mut d = vec![0u8; n];
         rng.fill(&mut d);
         secs.push(Sec {
-            name: if rng.chance(1, 2) {
+            name: if rng.chance(1, 20) {
+                let want = *rng.pick(&[33usize, 65, 130, 257, 1025]);
+                let mut nm = format!(".long_{}_", i);
+                while nm.len() < want {
+                    nm.push('y');
+                }
+                nm
+            } else if rng.chance(1, 2) {
                 (*rng.pick(&REAL_NAMES)).to_string()
             } else {
                 format!(".text.{}", i)
@@ -1331,6 +1356,8 @@ pub fn boundary_value(rng: &mut Rng, len: u64, width: usize) -> u64 {
         1 << 63,
         u64::MAX,
         4 * len + 8192,
+        4 * len + 16384,
+        4 * len + 16385,
         4 * len + 8193,
         len / 2,
         0xff00,
